@@ -25,21 +25,24 @@ pub fn guest(module: &str, subset: &[&ApiImport], foreign_at: &[usize]) -> Strin
     let mut s = String::from("(module\n");
     // a foreign memory import that merely happens to be called "memory" (marker: position 9999 in the foreign list)
     if foreign_at.contains(&9999) { s.push_str("  (import \"env\" \"memory\" (memory 1))\n"); }
+    // an import may occur more than once: identifiers are positional, the second occurrence is exported as w2_/t2_/r2_
+    let occ = |k: usize| -> &'static str { if subset[..k].iter().any(|j| j.name == subset[k].name) { "2" } else { "" } };
     for (k, i) in subset.iter().enumerate() {
         if foreign_at.contains(&k) { writeln!(s, "  (import \"env\" \"foreign{}\" (func $foreign{} (param i32) (result i32)))", k, k).unwrap(); }
-        write!(s, "  (import \"{}\" \"{}\" (func ${}", module, i.name, i.name).unwrap();
+        write!(s, "  (import \"{}\" \"{}\" (func $imp{}", module, i.name, k).unwrap();
         for p in &i.params { write!(s, " (param {})", vt(p)).unwrap(); } for r in &i.results { write!(s, " (result {})", vt(r)).unwrap(); }
         s.push_str("))\n");
     }
     s.push_str("  (memory (export \"memory\") 1)\n");
     writeln!(s, "  (table {} funcref)", subset.len().max(1)).unwrap();
-    if !subset.is_empty() { write!(s, "  (elem (i32.const 0)").unwrap(); for i in subset { write!(s, " ${}", i.name).unwrap(); } s.push_str(")\n"); }
+    if !subset.is_empty() { write!(s, "  (elem (i32.const 0)").unwrap(); for k in 0..subset.len() { write!(s, " $imp{}", k).unwrap(); } s.push_str(")\n"); }
     for (k, i) in subset.iter().enumerate() {
+        if subset[..k].iter().filter(|j| j.name == i.name).count() >= 2 { continue; }
         let sig: String = i.params.iter().map(|p| format!(" (param {})", vt(p))).chain(i.results.iter().map(|r| format!(" (result {})", vt(r)))).collect();
         let gets: String = (0..i.params.len()).map(|j| format!(" local.get {}", j)).collect();
-        writeln!(s, "  (func (export \"w_{}\"){}{} call ${})", i.name, sig, gets, i.name).unwrap();
-        writeln!(s, "  (func (export \"t_{}\"){}{} i32.const {} call_indirect{})", i.name, sig, gets, k, sig).unwrap();
-        writeln!(s, "  (export \"r_{}\" (func ${}))", i.name, i.name).unwrap();
+        writeln!(s, "  (func (export \"w{}_{}\"){}{} call $imp{})", occ(k), i.name, sig, gets, k).unwrap();
+        writeln!(s, "  (func (export \"t{}_{}\"){}{} i32.const {} call_indirect{})", occ(k), i.name, sig, gets, k, sig).unwrap();
+        writeln!(s, "  (export \"r{}_{}\" (func $imp{}))", occ(k), i.name, k).unwrap();
     }
     for k in foreign_at { if *k < subset.len() { writeln!(s, "  (func (export \"f_{}\") (param i32) (result i32) local.get 0 call $foreign{})", k, k).unwrap(); } }
     s.push_str(")\n");
@@ -57,7 +60,10 @@ pub fn instantiate(engine: &Engine, wasm: &[u8], seed: u64) -> Result<Inst> {
     store.data_mut().pmem = Some(pmem);
     let mut fmem: Option<Memory> = None;
     let imports: Vec<(String, String, wasmtime::ExternType)> = module.imports().map(|i| (i.module().to_string(), i.name().to_string(), i.ty())).collect();
+    let mut defined = std::collections::BTreeSet::<(String, String)>::new();
     for (m, n, ty) in imports {
+        // a module may import the same item more than once (the tool adds one low-level import per glue function)
+        if !defined.insert((m.clone(), n.clone())) { continue; }
         match ty {
             wasmtime::ExternType::Memory(_) => {
                 // only the provider module's memory is the provider memory; any other imported memory is a foreign scratch memory
@@ -130,7 +136,9 @@ pub fn run(args: &[String]) -> Result<()> {
         writeln!(cases, "CASE {} {} {} | {}", id, cseed, names.join(","), foreign.iter().map(|x| x.to_string()).collect::<Vec<_>>().join(","))?;
         let wasm = wat::parse_str(&wat_text)?;
         let out = match trampoline(&wasm) { Ok(o) => o, Err(e) => { for c in calls { writeln!(cases, "{}", c)?; writeln!(imp, "{} REJECTED {}", id, format!("{:#}", e).replace('\n', " "))?; } writeln!(cases, "END")?; return Ok(()); } };
-        let mut inst = instantiate(&engine, &out, cseed)?;
+        let mut inst = match instantiate(&engine, &out, cseed) { Ok(i) => i, Err(e) => {
+            // the trampolined module does not link against the low-level provider: an observation, for every call
+            for c in calls { writeln!(cases, "{}", c)?; writeln!(imp, "{} LINKFAIL {}", id, format!("{:#}", e).replace('\n', " ").chars().take(160).collect::<String>())?; } writeln!(cases, "END")?; return Ok(()); } };
         for c in calls {
             writeln!(cases, "{}", c)?;
             let (head, resp) = c.split_once(" ; ").unwrap_or((c, ""));
@@ -166,6 +174,10 @@ pub fn run(args: &[String]) -> Result<()> {
             // subset: every single-import guest first (thorough), the all-imports guest, then random subsets in random order
             let mut names: Vec<String> = if id == 0 { imps.iter().map(|i| i.name.clone()).collect() } else if tier == "thorough" && id <= imps.len() { vec![imps[id - 1].name.clone()] } else {
                 let mut v: Vec<String> = imps.iter().filter(|i| r.chance(if strings.contains(&i.name.as_str()) { 75 } else { 40 })).map(|i| i.name.clone()).collect(); if v.is_empty() { v.push(strings[r.below(5) as usize].to_string()); } v };
+            // scalar-only guests (they still have a memory, so they must be trampolined); duplicated imports
+            if id % 7 == 3 { names.retain(|n| !strings.contains(&n.as_str())); if names.is_empty() { names.push("shopify_function_output_new_i32".to_string()); } }
+            if id % 4 == 1 { for _ in 0..r.range(1, 2) { let d = if r.chance(75) { let sn: Vec<String> = names.iter().filter(|n| strings.contains(&n.as_str())).cloned().collect(); if sn.is_empty() { r.pick(&names).clone() } else { r.pick(&sn).clone() } } else { r.pick(&names).clone() };
+                if names.iter().filter(|n| **n == d).count() < 2 { names.push(d); } } }
             for k in (1..names.len()).rev() { let j = r.below(k as u64 + 1) as usize; names.swap(k, j); }
             let mut foreign: Vec<usize> = (0..names.len()).filter(|_| r.chance(20)).collect();
             if id % 5 == 2 { foreign.push(9999); }
@@ -173,7 +185,8 @@ pub fn run(args: &[String]) -> Result<()> {
             let mut calls = vec![];
             for _ in 0..ncalls {
                 let name = if r.chance(70) { let s: Vec<&String> = names.iter().filter(|n| strings.contains(&n.as_str())).collect(); if s.is_empty() { r.pick(&names).clone() } else { (*r.pick(&s)).clone() } } else { r.pick(&names).clone() };
-                let via = *r.pick(&["w", "w", "t", "r"]);
+                let dup = names.iter().filter(|n| **n == name).count() >= 2;
+                let via = if dup && r.chance(60) { *r.pick(&["w2", "t2", "r2"]) } else { *r.pick(&["w", "w", "t", "r"]) };
                 let i = sig_of(&name);
                 let len = *r.pick(&[0u64, 1, 2, 5, 16, 100, 1000]); let oob = r.chance(4);
                 let ptr = if oob { MEM as u64 - len / 2 } else { r.below(MEM as u64 - len - 8) };
